@@ -6,43 +6,57 @@ From PV Require Import Lib.Bytes Gen.MkByteSets Model.MkLexPrim Model.MkLexer Mo
   Model.MkLineSplit Model.MatchVarassign Spec.MkPartition Proofs.MkLineSplit Proofs.Varassign.
 From PV Require Import Proofs.MkLexPrim Proofs.MkLexer.
 From Coq Require Import ZifyBool ZifyN ZifyNat.
-From PV Require Model.Lines.
+From PV Require Model.Lines Proofs.LinesLoop.
 Import ListNotations.
 Open Scope N_scope.
 
 (* ---- one raw line: the model of Model/MkLineSplit.v, literally ---- *)
 
-Lemma ml_tail_single c text sr : match_varassign_tail_ml false text c sr = match_varassign_tail c text sr.
+Lemma ml_tail_single c text sr : match_varassign_tail_ml false text text c sr = match_varassign_tail c text sr.
 Proof. reflexivity. Qed.
 
 Lemma ml_single text : parse_varassign_ml false text text = parse_varassign text.
 Proof. reflexivity. Qed.
 
-(* ---- an accepted line passed the guard, and is accepted by the tail run against raw0 ---- *)
+(* ---- an accepted line is accepted by the one-raw-line tail on the logical text, and passed the guard ---- *)
 
-Lemma ml_tail_accept ml raw0 c sr a :
-  match_varassign_tail_ml ml raw0 c sr = Ok (Some a) ->
-  match_varassign_tail c raw0 sr = Ok (Some a) /\ (ml = true -> first_raw_has_equals raw0 = true).
+Ltac ml_stages H :=
+  destruct (tokenize (sr_main _)) as [toks| |]; cbn [bind] in *; try discriminate;
+  cbv zeta in *;
+  destruct (Varname _) as [[vname mkrest]| |]; cbn [bind] in *; try discriminate;
+  destruct (tl_skip_mixed _ _ _) as [lexer2| |]; cbn [bind] in *; try discriminate.
+
+Lemma ml_tail_accept ml raw0 text c sr a :
+  match_varassign_tail_ml ml raw0 text c sr = Ok (Some a) ->
+  match_varassign_tail c text sr = Ok (Some a) /\
+  (ml = true -> exists al r, text = al ++ r /\
+     (length (rtrim_hspace al) <= length (first_line_of raw0))%nat).
 Proof.
   unfold match_varassign_tail_ml, match_varassign_tail. intro H.
-  destruct (tokenize (sr_main sr)) as [toks| |]; cbn [bind] in *; try discriminate.
-  cbv zeta in *.
-  destruct (Varname _) as [[vname mkrest]| |]; cbn [bind] in *; try discriminate.
-  destruct (tl_skip_mixed _ _ _) as [lexer2| |]; cbn [bind] in *; try discriminate.
+  ml_stages H.
   destruct vname as [|v0 vname]; [discriminate|].
   destruct (next_bytes is_hspace (fst lexer2)) as [sav cur3].
   match type of H with context [skip_byte 61 ?c4] => destruct (skip_byte 61 c4) as [cur5|] end; [|discriminate].
   match type of H with (if ?c then Panic else _) = _ => destruct c; [discriminate|] end.
-  destruct ml; cbn [andb] in H.
-  - destruct (first_raw_has_equals raw0); cbn [negb] in H; [|discriminate]. split; [exact H|reflexivity].
-  - split; [exact H|discriminate].
+  match type of H with context [has_suffix [43] ?v && ?b && ?d] => destruct (has_suffix [43] v && b && d) end;
+  cbv beta iota in *;
+  match type of H with context [get_raw_value_align text ?p] =>
+    pose proof (get_raw_value_align_post text p) as P; destruct (get_raw_value_align text p) as [al| |] end;
+    cbn [bind] in *; try discriminate;
+  (destruct ml; cbn [andb] in H;
+   [ destruct (length (first_line_of raw0) <? length (rtrim_hspace al))%nat eqn:L; [discriminate|];
+     split; [exact H|]; intros _; destruct P as (r & Hr); exists al, r; split; [exact Hr|];
+     apply Nat.ltb_ge in L; exact L
+   | split; [exact H|discriminate] ]).
 Qed.
 
 (* the shape in which matchVarassign reaches its tail: T is the text that was split into sr *)
 Lemma ml_accept ml raw0 text a :
   parse_varassign_ml ml raw0 text = Ok (Some a) ->
   exists (c : bool) T sr, split T true = Ok sr /\ text = (if c then [35] else []) ++ T /\
-    match_varassign_tail c raw0 sr = Ok (Some a) /\ (ml = true -> first_raw_has_equals raw0 = true).
+    match_varassign_tail c text sr = Ok (Some a) /\
+    (ml = true -> exists al r, text = al ++ r /\
+       (length (rtrim_hspace al) <= length (first_line_of raw0))%nat).
 Proof.
   unfold parse_varassign_ml. destruct (split text true) as [first| |] eqn:E1; cbn [bind]; try discriminate.
   unfold match_varassign_ml.
@@ -50,7 +64,8 @@ Proof.
   - apply andb_true_iff in C as [_ Hp]. apply has_prefix_app in Hp as (t1 & Ht1).
     destruct (next_bytes is_hspace (sr_comment first)) as [hs crest].
     destruct (nonempty hs || negb (nonempty crest)); [discriminate|].
-    subst text. rewrite skip_ok by (simpl; lia). cbn [bind skipn app].
+    destruct (skip 1 text) as [t1'| |] eqn:Esk; cbn [bind]; try discriminate.
+    assert (t1' = t1) by (subst text; rewrite skip_ok in Esk by (simpl; lia); inversion Esk; reflexivity). subst t1'.
     destruct (split t1 true) as [sr| |] eqn:E2; cbn [bind]; try discriminate.
     intro Hm. apply ml_tail_accept in Hm as [Hm Hg].
     exists true, t1, sr. auto.
@@ -58,9 +73,12 @@ Proof.
     exists false, text, first. auto.
 Qed.
 
-(* every accepted multi-line assignment has its "=" in the first raw line *)
+(* every accepted multi-line assignment has its operator in the first raw line: the raw text of the
+   logical line up to the operator (the alignment prefix without its trailing blanks) is no longer
+   than the first physical line without its continuation backslash and trailing blanks *)
 Lemma varassign_ml_guard raw0 text a :
-  parse_varassign_ml true raw0 text = Ok (Some a) -> first_raw_has_equals raw0 = true.
+  parse_varassign_ml true raw0 text = Ok (Some a) ->
+  exists al r, text = al ++ r /\ (length (rtrim_hspace al) <= length (first_line_of raw0))%nat.
 Proof. intro H. destruct (ml_accept _ _ _ _ H) as (c & T & sr & _ & _ & _ & Hg). auto. Qed.
 
 (* for every accepted assignment, whatever the raw lines are: [#] ++ pre ++ comment is the logical
@@ -69,24 +87,22 @@ Lemma varassign_ml_value_comment_recombine ml raw0 text a :
   parse_varassign_ml ml raw0 text = Ok (Some a) -> va_law text a.
 Proof.
   intro H. destruct (ml_accept _ _ _ _ H) as (commented & T & sr & Hs & Ht & Hm & _).
-  destruct (match_varassign_tail_law commented raw0 T sr a Hs Hm) as (head & sp & A1 & A2 & A3 & A4 & A5 & A6).
+  destruct (match_varassign_tail_law commented text T sr a Hs Hm) as (head & sp & A1 & A2 & A3 & A4 & A5 & A6).
   destruct (split_recombines _ _ _ Hs) as (pre & B1 & B2 & B3 & _).
   exists head, pre, sp. rewrite A1, A2, A3. subst sp.
-  split; [rewrite Ht, B1; reflexivity|].
+  split; [rewrite Ht at 1; rewrite B1; reflexivity|].
   split; [rewrite B2, A4, <- app_assoc; reflexivity|].
   split; [exact A4|]. split; [exact B3|exact A6].
 Qed.
 
-(* the alignment prefix handed out is a prefix of the FIRST RAW LINE (plus the blanks before the
-   comment when the value is empty) *)
+(* the alignment prefix handed out is a prefix of the text (plus the blanks before the comment when
+   the value is empty) *)
 Lemma tail_align_prefix c raw sr a : match_varassign_tail c raw sr = Ok (Some a) ->
-  exists al r, raw = al ++ r /\ va_value_align a = al ++ (match va_value a with [] => sr_space_before_comment sr | _ => [] end).
+  exists al r, raw = al ++ r /\
+    va_value_align a = al ++ (match va_value a with [] => sr_space_before_comment sr | _ => [] end).
 Proof.
   unfold match_varassign_tail. intro H.
-  destruct (tokenize (sr_main sr)) as [toks| |]; cbn [bind] in *; try discriminate.
-  cbv zeta in *.
-  destruct (Varname _) as [[vname mkrest]| |]; cbn [bind] in *; try discriminate.
-  destruct (tl_skip_mixed _ _ _) as [lexer2| |]; cbn [bind] in *; try discriminate.
+  ml_stages H.
   destruct vname as [|v0 vname]; [discriminate|].
   destruct (next_bytes is_hspace (fst lexer2)) as [sav cur3].
   match type of H with context [skip_byte 61 ?c4] => destruct (skip_byte 61 c4) as [cur5|] end; [|discriminate].
@@ -103,7 +119,8 @@ Qed.
 
 Lemma varassign_ml_align_prefix ml raw0 text a :
   parse_varassign_ml ml raw0 text = Ok (Some a) ->
-  exists al r sp, raw0 = al ++ r /\ va_value_align a = al ++ sp /\ forallb is_hspace sp = true /\ (va_value a <> [] -> sp = []).
+  exists al r sp, text = al ++ r /\ va_value_align a = al ++ sp /\ forallb is_hspace sp = true /\
+    (va_value a <> [] -> sp = []).
 Proof.
   intro H. destruct (ml_accept _ _ _ _ H) as (c & T & sr & Hs & _ & Hm & _).
   destruct (tail_align_prefix _ _ _ _ Hm) as (al & r & Hr & Ha).
@@ -113,40 +130,39 @@ Proof.
   - exists []. repeat split; auto.
 Qed.
 
-(* ---- a line without "=" in its first raw line is rejected before the raw line is looked at ---- *)
+(* ---- no panic beyond those of parsing the logical text itself ---- *)
 
-Lemma ml_tail_rejected raw0 c text sr r :
-  first_raw_has_equals raw0 = false ->
+Lemma ml_tail_no_panic ml raw0 c text sr r :
   match_varassign_tail c text sr = Ok r ->
-  match_varassign_tail_ml true raw0 c sr = Ok None.
+  match_varassign_tail_ml ml raw0 text c sr <> Panic.
 Proof.
-  unfold match_varassign_tail_ml, match_varassign_tail. intros Hg H. rewrite Hg.
-  destruct (tokenize (sr_main sr)) as [toks| |]; cbn [bind] in *; try discriminate.
-  cbv zeta in *.
-  destruct (Varname _) as [[vname mkrest]| |]; cbn [bind] in *; try discriminate.
-  destruct (tl_skip_mixed _ _ _) as [lexer2| |]; cbn [bind] in *; try discriminate.
-  destruct vname as [|v0 vname]; [reflexivity|].
+  unfold match_varassign_tail_ml, match_varassign_tail. intros H.
+  ml_stages H.
+  destruct vname as [|v0 vname]; [discriminate|].
   destruct (next_bytes is_hspace (fst lexer2)) as [sav cur3].
-  match type of H with context [skip_byte 61 ?c4] => destruct (skip_byte 61 c4) as [cur5|] end; [|reflexivity].
+  match type of H with context [skip_byte 61 ?c4] => destruct (skip_byte 61 c4) as [cur5|] end; [|discriminate].
   match type of H with (if ?c then Panic else _) = _ => destruct c; [discriminate|] end.
-  reflexivity.
+  match type of H with context [has_suffix [43] ?v && ?b && ?d] => destruct (has_suffix [43] v && b && d) end;
+  cbv beta iota in *;
+  match type of H with context [get_raw_value_align text ?p] => destruct (get_raw_value_align text p) as [al| |] end;
+  cbn [bind] in *; try discriminate;
+  destruct (ml && _); try discriminate;
+  match goal with |- context [trim_hspace ?x] => destruct (trim_hspace x) end; discriminate.
 Qed.
 
-Lemma varassign_ml_rejected raw0 text r :
-  first_raw_has_equals raw0 = false ->
-  parse_varassign text = Ok r ->
-  parse_varassign_ml true raw0 text = Ok None.
+Lemma varassign_ml_no_panic ml raw0 text r :
+  parse_varassign text = Ok r -> parse_varassign_ml ml raw0 text <> Panic.
 Proof.
-  intro Hg. unfold parse_varassign_ml, parse_varassign.
+  unfold parse_varassign_ml, parse_varassign.
   destruct (split text true) as [first| |] eqn:E1; cbn [bind]; try discriminate.
   unfold match_varassign_ml, match_varassign.
   destruct (negb (nonempty (sr_main first)) && sr_has_comment first && has_prefix [35] text).
   - destruct (next_bytes is_hspace (sr_comment first)) as [hs crest].
-    destruct (nonempty hs || negb (nonempty crest)); [reflexivity|].
+    destruct (nonempty hs || negb (nonempty crest)); [discriminate|].
     destruct (skip 1 text) as [t1| |]; cbn [bind]; try discriminate.
     destruct (split t1 true) as [sr| |]; cbn [bind]; try discriminate.
-    apply ml_tail_rejected; exact Hg.
-  - apply ml_tail_rejected; exact Hg.
+    apply ml_tail_no_panic.
+  - apply ml_tail_no_panic.
 Qed.
 
 (* ---- all logical lines of a file (C09's convertToLogicalLines) ---- *)
@@ -161,7 +177,9 @@ Lemma varassign_of_file_lines raw_text ls :
   Forall (fun lr : Lines.line * res (option varassign) =>
     forall a, snd lr = Ok (Some a) ->
       va_law (Lines.text (fst lr)) a /\
-      (line_multiline (fst lr) = true -> first_raw_has_equals (line_raw0 (fst lr)) = true)) ls.
+      (line_multiline (fst lr) = true ->
+       exists al r, Lines.text (fst lr) = al ++ r /\
+         (length (rtrim_hspace al) <= length (first_line_of (line_raw0 (fst lr))))%nat)) ls.
 Proof.
   unfold varassign_of_file.
   destruct (Lines.convert_to_logical_lines raw_text true) as [[lines w]| |]; cbn [lift_lines_res bind]; try discriminate.
@@ -174,33 +192,53 @@ Proof.
   eapply varassign_ml_guard; exact Ha.
 Qed.
 
-(* ---- the guard does not decide "the operator lies in the first raw line" ---- *)
+(* every line that convertToLogicalLines builds has at least one raw line (C09): line.raw[0] exists *)
+Lemma grouped_raws_nonempty k rs ls : LinesLoop.grouped k rs ls -> Forall (fun l => Lines.raws l <> []) ls.
+Proof.
+  induction 1; constructor; [|assumption].
+  match goal with Hr : Lines.raws _ = _ |- _ => rewrite Hr end.
+  eapply LinesLoop.group_ok_nonempty; eassumption.
+Qed.
 
-(* VAR.${PARAM:S,=,,}\  /  = value : the first raw line contains "=" (inside the expression), the
-   operator is in the continuation line; getRawValueAlign's assert(pch == '#') fails *)
-Definition ml_witness_file : str :=
-  [86;65;82;46;36;123;80;65;82;65;77;58;83;44;61;44;44;125;92;10;61;32;118;97;108;117;101;10].
-Definition ml_witness_raw0 : str := [86;65;82;46;36;123;80;65;82;65;77;58;83;44;61;44;44;125;92].
-Definition ml_witness_text : str := [86;65;82;46;36;123;80;65;82;65;77;58;83;44;61;44;44;125;32;61;32;118;97;108;117;101].
-(* the shortest one: $=\ / = *)
-Definition ml_witness2_file : str := [36;61;92;10;61;10].
+Lemma convert_raws_nonempty raw_text ls w :
+  Lines.convert_to_logical_lines raw_text true = Lines.Ok (ls, w) -> Forall (fun l => Lines.raws l <> []) ls.
+Proof.
+  unfold Lines.convert_to_logical_lines.
+  set (rl := filter _ _).
+  destruct (LinesLoop.mk_loop_spec rl (length rl) 0 []) as (ls' & E & G);
+    [change (N.to_nat 0) with 0%nat; apply Nat.le_0_l|change (N.to_nat 0) with 0%nat; rewrite Nat.sub_0_r; apply le_n|].
+  rewrite E. cbn [app]. intro H.
+  assert (ls = ls').
+  { destruct (negb (Lines.is_empty raw_text) && negb (Lines.has_suffix [Lines.nl] raw_text));
+      [destruct ls'; [discriminate|inversion H; reflexivity]|inversion H; reflexivity]. }
+  subst. eapply grouped_raws_nonempty; eassumption.
+Qed.
 
 Definition ml_no_panic_full : Prop :=
   forall raw_text ls, varassign_of_file raw_text = Ok ls ->
     Forall (fun lr : Lines.line * res (option varassign) =>
       (exists r, parse_varassign (Lines.text (fst lr)) = Ok r) -> snd lr <> Panic) ls.
 
+Lemma ml_no_panic : ml_no_panic_full.
+Proof.
+  unfold ml_no_panic_full, varassign_of_file. intros raw_text ls.
+  destruct (Lines.convert_to_logical_lines raw_text true) as [[lines w]| |] eqn:E; cbn [lift_lines_res bind]; try discriminate.
+  intro H. inversion H; subst ls. clear H.
+  pose proof (convert_raws_nonempty _ _ _ E) as NE. rewrite Forall_forall in NE.
+  apply Forall_forall. intros lr Hin. apply in_map_iff in Hin as (l & <- & Hl). cbn [fst snd].
+  intros (r & Hr). unfold varassign_of_line. specialize (NE l Hl).
+  destruct (Lines.raws l) as [|r0 more]; [congruence|].
+  eapply varassign_ml_no_panic; exact Hr.
+Qed.
+
+(* ---- the former witness of the panic: VAR.${PARAM:S,=,,}\  /  = value ---- *)
+Definition ml_witness_file : str :=
+  [86;65;82;46;36;123;80;65;82;65;77;58;83;44;61;44;44;125;92;10;61;32;118;97;108;117;101;10].
+Definition ml_witness_raw0 : str := [86;65;82;46;36;123;80;65;82;65;77;58;83;44;61;44;44;125;92].
+Definition ml_witness_text : str := [86;65;82;46;36;123;80;65;82;65;77;58;83;44;61;44;44;125;32;61;32;118;97;108;117;101].
+
+(* the operator is in the continuation line: not an assignment, no panic *)
 Lemma ml_witness_lines :
   varassign_of_file ml_witness_file =
-    Ok [(Lines.mk_line 1 ml_witness_text [ml_witness_raw0 ++ [10]; [61;32;118;97;108;117;101;10]], Panic)].
+    Ok [(Lines.mk_line 1 ml_witness_text [ml_witness_raw0 ++ [10]; [61;32;118;97;108;117;101;10]], Ok None)].
 Proof. vm_compute. reflexivity. Qed.
-
-Lemma ml_witness_text_parses : exists a, parse_varassign ml_witness_text = Ok (Some a).
-Proof. eexists. vm_compute. reflexivity. Qed.
-
-Lemma ml_no_panic_refuted : ~ ml_no_panic_full.
-Proof.
-  intro H. specialize (H _ _ ml_witness_lines).
-  inversion H as [|x l Hx _]; subst. cbn [fst snd Lines.text] in Hx.
-  apply Hx; [|reflexivity]. destruct ml_witness_text_parses as (a & Ha). exists (Some a). exact Ha.
-Qed.
